@@ -72,6 +72,7 @@ class VTape(object):
         self.forced = None if forced is None else flatten(forced)
         self.draws = []
         self._saved = {}
+        self.unreplayable = None
 
     def __enter__(self):
         for n in self.PATCHED:
@@ -90,6 +91,11 @@ class VTape(object):
 
     def _unsupported(self, name):
         def f(*a, **k):
+            if self.forced is None and self.rng is not None and hasattr(self.rng, name):
+                # free-running tape: let the call through (from this case's own generator) so that the statement can
+                # still be judged on the result; the case is reported as a correspondence break unless the oracle fails
+                self.unreplayable = name
+                return getattr(self.rng, name)(*a, **k)
             raise TapeMismatch("code called random.%s, which the model cannot replay" % name)
         return f
 
@@ -340,10 +346,13 @@ MUT = {"shuffle": tools.mutShuffleIndexes, "flip": tools.mutFlipBit, "flipb": to
 FLIPTYPE = {"flip": "i", "flipb": "b", "flipf": "f"}
 
 
+_last_tape = [None]
+
+
 def make_tape(d):
-    if "tape" in d:
-        return VTape(forced=d["tape"])
-    return VTape(rng=_random.Random(d["tapeseed"]))
+    t = VTape(forced=d["tape"]) if "tape" in d else VTape(rng=_random.Random(d["tapeseed"]))
+    _last_tape[0] = t
+    return t
 
 
 def split_draws(draws):
@@ -354,7 +363,12 @@ def evaluate(d):
     try:
         with warnings.catch_warnings():
             warnings.simplefilter("ignore")          # the former names emit a FutureWarning
-            return _evaluate(d)
+            c = _evaluate(d)
+        t = _last_tape[0]
+        if t is not None and t.unreplayable and c.oracle is None:
+            return Case(d, [], [], oracle="TAPE: code called random.%s, which the model cannot replay" % t.unreplayable,
+                        tag=d["op"] + "/tape-error")
+        return c
     except (TapeExhausted, TapeMismatch) as e:
         # the code draws differently from the anchored code: the model cannot replay it.  That breaks the
         # correspondence; it is not a failing input of the property.
@@ -699,6 +713,10 @@ def rand_genes(rng, n, back="list"):
 def rand_bound_pair(rng, n, huge):
     """(low, up, lowkind, upkind) with low <= up position by position"""
     base = rng.choice([-1, 1]) * rng.randint(1 << 31, 1 << 40) if huge else rng.randint(-10, 10)
+    if huge and rng.random() < 0.4:
+        # bounds next to 2**53 and 2**62: an integer draw computed through a double (floor(uniform(low, up + 1)),
+        # int(random() * width)) leaves the bounds or loses values there
+        base = rng.choice([-1, 1]) * (rng.choice([1 << 53, 1 << 62]) - rng.randint(0, 8))
     width = rng.randint(0, 6)
     lk = rng.choice(["scalar", "list", "tuple", "range", "array"])
     uk = rng.choice(["scalar", "list", "tuple", "range", "array"])
@@ -833,6 +851,14 @@ def generate(tier, rng, mult):
     n = (130000 if tier == "thorough" else 26000) * mult
     for _ in range(n):
         yield random_case(rng)
+
+
+def focus_generate(tier, rng, descs):
+    """failing-input search after a correspondence break: random inputs for the operators that disagreed"""
+    ops = sorted(set(d.get("op") for d in descs if d.get("op") in OPS))
+    for _ in range(6000 if tier == "thorough" else 1500):
+        for op in ops:
+            yield random_case(rng, op)
 
 
 def shrink(d):
